@@ -186,7 +186,7 @@ impl<'a> DeclVisitor for BuildSession<'a> {
         let rng = self.rng;
         let shape = if core { *rng.pick(&ShapeId::ALL) } else { *rng.pick(&ShapeId::BASIC) };
         let fmt = *rng.pick(&Format::ALL);
-        let stream = fmt == Format::Json && shape == ShapeId::Bare && rng.chance(1, 5);
+        let stream = fmt.base() == Format::Json && shape == ShapeId::Bare && rng.chance(1, 5);
         let mut ops = Vec::new();
         let mut lens: BTreeMap<u8, usize> = BTreeMap::new();
         let n_ops = rng.range_usize(1, 7);
@@ -503,7 +503,7 @@ fn enum_docs<D: Decl>(core: bool) -> Vec<(ShapeId, Format, Vec<u8>, String)> {
     let corpus = D::corpus();
     let aux = Aux::fixed();
     let mut docs = Vec::new();
-    for fmt in Format::ALL {
+    for fmt in Format::BASE {
         for v in &corpus {
             for shape in [ShapeId::Bare, ShapeId::RecOf] {
                 if let Ok(b) = build_doc::<D>(shape, core, fmt, &aux, vec![v.clone()], false) {
@@ -558,7 +558,7 @@ impl DeclVisitor for EnumDecl {
             let base = eval(&mut st, shape, fmt, Api::Reader, SimReader::whole(bytes.clone()), "enum.whole_read", label, false);
             for api in [Api::Slice, Api::Str] {
                 let r = eval(&mut st, shape, fmt, api, SimReader::whole(bytes.clone()), "enum.whole_read", label, false);
-                if r.a.is_ok() != base.a.is_ok() && !(fmt == Format::Msgpack) {
+                if r.a.is_ok() != base.a.is_ok() && !(fmt.base() == Format::Msgpack) {
                     // from_slice vs from_reader may legitimately differ only for zero-copy types; none here.
                 }
             }
